@@ -178,7 +178,9 @@ pub fn c04(opts: &Opts, out: &mut Out) {
             kinds.insert((inst.n, inst.m, inst.t, name.split('[').next().unwrap().to_string()));
             let pkey = format!("{} perturb={}", key, name);
             if ch.len() != nch {
-                out.oracle("C04:perturbed-run-complete", false, &pkey, &format!("challenges {} vs {}", ch.len(), nch));
+                // the perturbed statement was refused before all challenges were drawn (e.g. a smaller bit length makes
+                // a promise out of range): an error value is all the property asks for here
+                out.oracle("C04:perturbed-rejected", !ok, &pkey, "a proof verified under a perturbed datum");
                 continue;
             }
             let unchanged: Vec<usize> = (from..nch).filter(|i| ch[*i] == base[*i]).collect();
